@@ -78,6 +78,27 @@ def classesOK (env : MEnv) : Bool :=
   env.t.ct.all (fun p => p.2.contains "object")
 
 
+/-- the objects a wildcard-free walk performs its accesses on, in order (as long as it succeeds) -/
+def visits (env : MEnv) (h : Heap) : List Step → Val → List Val
+  | [], _ => []
+  | (op, arg) :: rest, cur =>
+    cur :: (match C01.refAccess env.t h op cur arg with
+      | some (.ok v) => visits env h rest v
+      | _ => [])
+
+/-- the `get` and `assign` registrations are about the same classes and pair up
+    (`getitem`/`setitem`, `_get_sequence_item`/`_set_sequence_item`, `getattr`/`setattr`) -/
+def pairedRegs (env : MEnv) : Bool :=
+  env.assignReg.all (fun p => env.t.getReg.any (·.1 == p.1)) &&
+  env.t.getReg.all (fun p => env.assignReg.any (·.1 == p.1)) &&
+  env.t.getReg.all (fun p => p.2 != "False") &&
+  env.assignReg.all (fun p =>
+    match env.t.getReg.find? (·.1 == p.1) with
+    | some (_, g) =>
+      p.2 == "False" || (p.2 == "setitem" && g == "getitem") ||
+        (p.2 == "_set_sequence_item" && g == "_get_sequence_item") || (p.2 == "setattr" && g == "getattr")
+    | none => false)
+
 /-- no class of the case stands for the scope mapping (T-rooted destinations) -/
 def noScope (env : MEnv) : Bool := env.flags.all (fun p => !p.2.contains "scope")
 
